@@ -6,8 +6,8 @@ M-Serial: executable model of defcon's serialization layer
                                                              component.py info.py features.py imageSet.py dataSet.py
                                                              (+ BaseDictObject for lib/kerning/groups/anchor/guideline/image)
 
-as the code stands WITH the three repo_fixes/C14-*.diff applied (font guideline identifiers,
-Layer.GlyphAdded on rebuild, image-set file names).  The getter / setter key tables are NOT written here:
+as the code stands WITH the repo_fixes/C14-*.diff applied (font guideline identifiers,
+Layer.GlyphAdded on rebuild, image-set file names; C14-r2-1 concerns notifications the model does not carry).  The getter / setter key tables are NOT written here:
 they are read from `Gen/SerialTables.lean`, which the harness regenerates from the Python sources on
 every run.
 
@@ -18,6 +18,10 @@ them — exactly what the serialization code does.
 Tree wiring.  Every child object carries two flags: `parent` (its parent accessor answers the object that
 contains it) and `observed` (the container registered its `*.Changed` observer on it; `addObserver` is a
 no-op without a dispatcher, i.e. outside a font, hence the `disp` flags).
+
+Lazily built state of a layer: `Layer.ucache` is `Layer._unicodeData` (built from the glyphs on first access,
+told about every glyph `_insertGlyph` inserts from then on); `peekAt` is the environment's observer of
+`Layer.GlyphAdded` that reads it while glyphs come in.
 
 Identifier registries (`Glyph._identifiers`, `Font._identifiers`) are `Reg`: the list of registered
 identifiers, or the exception an `assert … not in identifiers` / `identifiers.remove` raised.
